@@ -10,13 +10,18 @@
    without ServiceResolved the first follow-up question is asked 500 ms later (wake-up
    requested), at most 3 times, for the name the PTR pointed to.
    It is FALSE of the faithful model: C04_found_and_resolved_refuted gives a witness, and the
-   simulated daemon agrees with the model on it.  Four classes of histories violate it (known
-   findings, known/C04.json): a record that is only REFRESHED (e.g. cached from a goodbye less
-   than a second earlier) triggers no resolution; pending_resolves is never cleared; dotted
-   instance labels; SRV target / address owner differing in letter case.  What is proved here
-   are the steps the property rests on, for all states and inputs (_partial: the history-level
-   statement outside the four classes is checked by the monitor on every generated history of
-   model and implementation, not proved). *)
+   simulated daemon agrees with the model on it.  After the repairs of round 2 (goodbye-revived
+   records count as new, pending_resolves is cleared when a chain is over, host names compared
+   without regard to case) two classes of histories still violate it (known findings,
+   known/C04.json): dotted instance labels (the follow-up asks for another name), and a record
+   with TTL > 1 that is REFRESHED in its last second after the instance was reported removed
+   (no new record, so no resolution).  The former witnesses of the repaired classes are now
+   examples that pass (C04_example_restart, C04_example_mixed_case).  What is proved here are
+   the steps the property rests on, for all states and inputs (_partial: the history-level
+   statement outside the two classes is checked by the monitor on every generated history of
+   model and implementation, not proved:
+       forall ifs h wakes, wf_history h = true -> ~ Known_C04 h ->
+         chk_C04 ifs h wakes (map obs_of (run_history ifs h)) = true ). *)
 From Coq Require Import List NArith Bool.
 From Mdns Require Import Res Bytes Rec Wire Txt Cache Browser C03Spec BrowserSpec CacheProofs BrowserStepProofs
   BrowserExamples.
@@ -45,12 +50,14 @@ Theorem C04_complete_records_resolve : forall c now ty inst sb e ab a,
   is_valid (resolve_from_cache c now ty inst) = true.
 Proof. exact valid_when_complete. Qed.
 
-(* Which records trigger the step: a NEW PTR (TTL > 1) / SRV / TXT record of the instance ... *)
+(* Which records trigger the step: a NEW (or revived: cached with TTL <= 1, announced again with
+   TTL > 1) PTR (TTL > 1) / SRV / TXT record of the instance ... *)
 Theorem C04_new_record_triggers : forall c changes t inst,
   In (t, inst) changes -> (t = TY_PTR \/ t = TY_SRV \/ t = TY_TXT) -> In inst (updated_of c changes).
 Proof. exact updated_of_instance. Qed.
 
-(* ... and a NEW address record, for the instances whose first SRV names exactly its owner. *)
+(* ... and a NEW address record, for the instances whose first SRV names its owner (letter case
+   ignored since the repair of D21). *)
 Theorem C04_new_address_triggers : forall c changes t owner inst,
   In (t, owner) changes -> is_addr_type t = true -> In inst (get_instances_on_host c owner) ->
   In inst (updated_of c changes).
@@ -72,14 +79,14 @@ Theorem C04_followup_first : forall s now inst,
 Proof. exact followup_first. Qed.
 
 (* ... each try asks (instance, ANY) while no SRV is cached; tries 1 and 2 schedule the next
-   try 500 ms later, try 3 schedules nothing ... *)
+   try 500 ms later, try 3 schedules nothing and takes the instance out of pending_resolves ... *)
 Theorem C04_followup_step : forall s now inst n,
   valid_instance_name inst = true -> bm_get inst (c_srv (s_cache s)) = None ->
   exec_resolve s now inst n =
   (if n <? 3
    then mkSt (s_cache s) (s_q s) (s_pending s) (s_resolved s)
              (s_retrans s ++ [(now + 500, RResolve inst (n + 1))])
-   else s,
+   else forget_pending s inst,
    [OQuery [(inst, TY_ANY)]]).
 Proof. exact followup_step_any. Qed.
 
@@ -110,17 +117,24 @@ Proof. exact followup_step_addr. Qed.
 Theorem C04_followup_ends : forall s now inst n recs,
   bm_get inst (c_srv (s_cache s)) = Some recs ->
   find (fun e => match get_addr (s_cache s) (srv_host e) with None => true | Some _ => false end) recs = None ->
-  exec_resolve s now inst n = (s, []).
+  exec_resolve s now inst n = (forget_pending s inst, []).
 Proof. exact followup_ends. Qed.
 
-(* Finding C04-stale-pending-resolve at the step level: an instance that is still in
-   pending_resolves (it stays there after its three tries) gets no new chain. *)
-Theorem C04_followup_not_restarted : forall s now inst,
+(* While its chain runs an instance gets no second chain; when the chain is over (third try
+   done, or nothing left to ask) the instance is no longer pending, so a later ServiceFound of
+   it starts a new chain (C04_followup_first applies again) - the repaired stale-pending defect. *)
+Theorem C04_followup_not_doubled : forall s now inst,
   mem inst (s_pending s) = true -> add_pending s now inst = s.
 Proof. exact followup_not_restarted. Qed.
 
-(* The history-level statement is false of the faithful model: a service that restarts
-   (goodbye, full announcement 700 ms later) is never reported to a running browser. *)
+Theorem C04_followup_over_allows_new_round : forall s now inst n,
+  (n <? 3) = false \/ fst (query_unresolved (s_cache s) inst) = false ->
+  mem inst (s_pending (fst (exec_resolve s now inst n))) = false.
+Proof. exact followup_over_allows_new_round. Qed.
+
+(* The history-level statement is false of the faithful model: a PTR to an instance whose first
+   label is "a.b"; the follow-up questions ask for the labels a, b, _http, ... which no PTR
+   points to (finding C04-D20-dotted-label-followup). *)
 Theorem C04_found_and_resolved_refuted :
   exists ifs h wakes, wf_history h = true /\ chk_C04 ifs h wakes (map obs_of (run_history ifs h)) = false.
 Proof. exact chk_C04_refuted. Qed.
@@ -138,6 +152,25 @@ Example C04_example_lifecycle :
   /\ chk_C05 ex_ifs ex_hist (ex_wakes ex_hist) (map obs_of (run_history ex_ifs ex_hist)) = true.
 Proof. exact ex_hist_chk45. Qed.
 
+(* Repaired in round 2, now passing: a service restarts (goodbye, full announcement 700 ms
+   later) while a browser is running that does not know it - ServiceFound and ServiceResolved in
+   the iteration of the announcement. *)
+Example C04_example_restart :
+  wf_history restart_hist = true
+  /\ map (fun o => (existsb is_found_evt o, existsb is_resolved_evt o)) (run_history ex_ifs restart_hist)
+     = [(false, false); (false, false); (true, true); (false, false)]
+  /\ chk_C04 ex_ifs restart_hist (ex_wakes restart_hist) (map obs_of (run_history ex_ifs restart_hist)) = true.
+Proof. exact restart_facts. Qed.
+
+(* Repaired in round 2, now passing: SRV target Host1.local., the address arrives later, alone,
+   for host1.local. (TTL 3 s): resolved when it arrives, removed when it runs out. *)
+Example C04_example_mixed_case :
+  map (fun o => (existsb is_resolved_evt o, existsb is_removed_evt o)) (run_history ex_ifs mixedcase_hist)
+  = [(false, false); (false, false); (true, false); (false, false); (false, true); (false, false)]
+  /\ chk_C04 ex_ifs mixedcase_hist (ex_wakes mixedcase_hist) (map obs_of (run_history ex_ifs mixedcase_hist)) = true
+  /\ chk_C05 ex_ifs mixedcase_hist (ex_wakes mixedcase_hist) (map obs_of (run_history ex_ifs mixedcase_hist)) = true.
+Proof. exact mixedcase_facts. Qed.
+
 Print Assumptions C04_resolution_step_partial.
 Print Assumptions C04_complete_records_resolve.
 Print Assumptions C04_new_record_triggers.
@@ -148,7 +181,10 @@ Print Assumptions C04_followup_step.
 Print Assumptions C04_followup_three_tries.
 Print Assumptions C04_followup_after_srv.
 Print Assumptions C04_followup_ends.
-Print Assumptions C04_followup_not_restarted.
+Print Assumptions C04_followup_not_doubled.
+Print Assumptions C04_followup_over_allows_new_round.
 Print Assumptions C04_found_and_resolved_refuted.
 Print Assumptions C04_example_followup.
 Print Assumptions C04_example_lifecycle.
+Print Assumptions C04_example_restart.
+Print Assumptions C04_example_mixed_case.
